@@ -1,186 +1,58 @@
-// Copyright 2013 The Go Authors. All rights reserved.
-// Use of this source code is governed by a BSD-style
-// license that can be found in the LICENSE file.
+package symgo
 
-package interp
-
-// Emulated "reflect" package.
-//
-// We completely replace the built-in "reflect" package.
-// The only thing clients can depend upon are that reflect.Type is an
-// interface and reflect.Value is an (opaque) struct.
+// Emulation of package reflect at API level: reflect.Value is an engine value
+// (rvalue), reflect.Type is an interface value whose dynamic type is the
+// marker *reflect.rtype and whose payload is rtype{t}.
 
 import (
 	"fmt"
-	"go/token"
 	"go/types"
 	"reflect"
-	"unsafe"
+	"strings"
 
 	"golang.org/x/tools/go/ssa"
 )
 
-type opaqueType struct {
-	types.Type
+type rtype struct {
+	t types.Type
+}
+
+type rvalue struct {
+	t    types.Type // nil = invalid Value
+	v    value
+	addr *value // non-nil if addressable
+	ro   bool   // obtained through an unexported field
+}
+
+func (r rvalue) get() value {
+	if r.addr != nil {
+		return *r.addr
+	}
+	return r.v
+}
+
+type rtypeMethod struct {
 	name string
+	recv rtype
 }
 
-func (t *opaqueType) String() string { return t.name }
-
-// A bogus "reflect" type-checker package.  Shared across interpreters.
-var reflectTypesPackage = types.NewPackage("reflect", "reflect")
-
-// rtype is the concrete type the interpreter uses to implement the
-// reflect.Type interface.
-//
-// type rtype <opaque>
-var rtypeType = makeNamedType("rtype", &opaqueType{nil, "rtype"})
-
-// error is an (interpreted) named type whose underlying type is string.
-// The interpreter uses it for all implementations of the built-in error
-// interface that it creates.
-// We put it in the "reflect" package for expedience.
-//
-// type error string
-var errorType = makeNamedType("error", &opaqueType{nil, "error"})
-
-func makeNamedType(name string, underlying types.Type) *types.Named {
-	obj := types.NewTypeName(token.NoPos, reflectTypesPackage, name, nil)
-	return types.NewNamed(obj, underlying, nil)
-}
-
-func makeReflectValue(t types.Type, v value) value {
-	return structure{rtype{t}, v}
-}
-
-// Given a reflect.Value, returns its rtype.
-func rV2T(v value) rtype {
-	return v.(structure)[0].(rtype)
-}
-
-// Given a reflect.Value, returns the underlying interpreter value.
-func rV2V(v value) value {
-	return v.(structure)[1]
-}
-
-// makeReflectType boxes up an rtype in a reflect.Type interface.
-func makeReflectType(rt rtype) value {
-	return iface{rtypeType, rt}
-}
-
-func ext۰reflect۰rtype۰Bits(fr *frame, args []value) value {
-	// Signature: func (t reflect.rtype) int
-	rt := args[0].(rtype).t
-	basic, ok := rt.Underlying().(*types.Basic)
-	if !ok {
-		panic(fmt.Sprintf("reflect.Type.Bits(%T): non-basic type", rt))
+func (m *Machine) mkRType(t types.Type) value {
+	if t == nil {
+		return iface{}
 	}
-	return int(fr.i.sizes.Sizeof(basic)) * 8
+	return iface{t: m.prog.rtypeMarker, v: rtype{t}}
 }
 
-func ext۰reflect۰rtype۰Elem(fr *frame, args []value) value {
-	// Signature: func (t reflect.rtype) reflect.Type
-	return makeReflectType(rtype{args[0].(rtype).t.Underlying().(interface {
-		Elem() types.Type
-	}).Elem()})
-}
-
-func ext۰reflect۰rtype۰Field(fr *frame, args []value) value {
-	// Signature: func (t reflect.rtype, i int) reflect.StructField
-	st := args[0].(rtype).t.Underlying().(*types.Struct)
-	i := args[1].(int)
-	f := st.Field(i)
-	return structure{
-		f.Name(),
-		f.Pkg().Path(),
-		makeReflectType(rtype{f.Type()}),
-		st.Tag(i),
-		0,         // TODO(adonovan): offset
-		[]value{}, // TODO(adonovan): indices
-		f.Anonymous(),
+func rtypeOf(v value) types.Type {
+	it := v.(iface)
+	if it.t == nil {
+		panic(targetPanic{iface{}}) // refined by callers
 	}
-}
-
-func ext۰reflect۰rtype۰In(fr *frame, args []value) value {
-	// Signature: func (t reflect.rtype, i int) int
-	i := args[1].(int)
-	return makeReflectType(rtype{args[0].(rtype).t.(*types.Signature).Params().At(i).Type()})
-}
-
-func ext۰reflect۰rtype۰Kind(fr *frame, args []value) value {
-	// Signature: func (t reflect.rtype) uint
-	return uint(reflectKind(args[0].(rtype).t))
-}
-
-func ext۰reflect۰rtype۰NumField(fr *frame, args []value) value {
-	// Signature: func (t reflect.rtype) int
-	return args[0].(rtype).t.Underlying().(*types.Struct).NumFields()
-}
-
-func ext۰reflect۰rtype۰NumIn(fr *frame, args []value) value {
-	// Signature: func (t reflect.rtype) int
-	return args[0].(rtype).t.Underlying().(*types.Signature).Params().Len()
-}
-
-func ext۰reflect۰rtype۰NumMethod(fr *frame, args []value) value {
-	// Signature: func (t reflect.rtype) int
-	return fr.i.prog.MethodSets.MethodSet(args[0].(rtype).t).Len() // beware: falsely reports generic methods
-}
-
-func ext۰reflect۰rtype۰NumOut(fr *frame, args []value) value {
-	// Signature: func (t reflect.rtype) int
-	return args[0].(rtype).t.Underlying().(*types.Signature).Results().Len()
-}
-
-func ext۰reflect۰rtype۰Out(fr *frame, args []value) value {
-	// Signature: func (t reflect.rtype, i int) int
-	i := args[1].(int)
-	return makeReflectType(rtype{args[0].(rtype).t.Underlying().(*types.Signature).Results().At(i).Type()})
-}
-
-func ext۰reflect۰rtype۰Size(fr *frame, args []value) value {
-	// Signature: func (t reflect.rtype) uintptr
-	return uintptr(fr.i.sizes.Sizeof(args[0].(rtype).t))
-}
-
-func ext۰reflect۰rtype۰String(fr *frame, args []value) value {
-	// Signature: func (t reflect.rtype) string
-	return args[0].(rtype).t.String()
-}
-
-func ext۰reflect۰New(fr *frame, args []value) value {
-	// Signature: func (t reflect.Type) reflect.Value
-	t := args[0].(iface).v.(rtype).t
-	alloc := zero(t)
-	return makeReflectValue(types.NewPointer(t), &alloc)
-}
-
-func ext۰reflect۰SliceOf(fr *frame, args []value) value {
-	// Signature: func (t reflect.rtype) Type
-	return makeReflectType(rtype{types.NewSlice(args[0].(iface).v.(rtype).t)})
-}
-
-func ext۰reflect۰TypeOf(fr *frame, args []value) value {
-	// Signature: func (t reflect.rtype) Type
-	return makeReflectType(rtype{args[0].(iface).t})
-}
-
-func ext۰reflect۰ValueOf(fr *frame, args []value) value {
-	// Signature: func (interface{}) reflect.Value
-	itf := args[0].(iface)
-	return makeReflectValue(itf.t, itf.v)
-}
-
-func ext۰reflect۰Zero(fr *frame, args []value) value {
-	// Signature: func (t reflect.Type) reflect.Value
-	t := args[0].(iface).v.(rtype).t
-	return makeReflectValue(t, zero(t))
+	return it.v.(rtype).t
 }
 
 func reflectKind(t types.Type) reflect.Kind {
-	switch t := t.(type) {
-	case *types.Named, *types.Alias:
-		return reflectKind(t.Underlying())
+	switch t := t.Underlying().(type) {
 	case *types.Basic:
 		switch t.Kind() {
 		case types.Bool:
@@ -237,337 +109,802 @@ func reflectKind(t types.Type) reflect.Kind {
 	case *types.Struct:
 		return reflect.Struct
 	}
-	panic(fmt.Sprint("unexpected type: ", t))
+	return reflect.Invalid
 }
 
-func ext۰reflect۰Value۰Kind(fr *frame, args []value) value {
-	// Signature: func (reflect.Value) uint
-	return uint(reflectKind(rV2T(args[0]).t))
+func (m *Machine) reflectPanic(msg string) {
+	panic(targetPanic{iface{t: types.Typ[types.String], v: msg}})
 }
 
-func ext۰reflect۰Value۰String(fr *frame, args []value) value {
-	// Signature: func (reflect.Value) string
-	return toString(rV2V(args[0]))
-}
-
-func ext۰reflect۰Value۰Type(fr *frame, args []value) value {
-	// Signature: func (reflect.Value) reflect.Type
-	return makeReflectType(rV2T(args[0]))
-}
-
-func ext۰reflect۰Value۰Uint(fr *frame, args []value) value {
-	// Signature: func (reflect.Value) uint64
-	switch v := rV2V(args[0]).(type) {
-	case uint:
-		return uint64(v)
-	case uint8:
-		return uint64(v)
-	case uint16:
-		return uint64(v)
-	case uint32:
-		return uint64(v)
-	case uint64:
-		return uint64(v)
-	case uintptr:
-		return uint64(v)
+func typeName(t types.Type) string {
+	switch t := types.Unalias(t).(type) {
+	case *types.Named:
+		return t.Obj().Name()
+	case *types.Basic:
+		return t.Name()
 	}
-	panic("reflect.Value.Uint")
+	return ""
 }
 
-func ext۰reflect۰Value۰Len(fr *frame, args []value) value {
-	// Signature: func (reflect.Value) int
-	switch v := rV2V(args[0]).(type) {
-	case string:
-		return len(v)
-	case array:
-		return len(v)
-	case chan value:
-		return cap(v)
-	case []value:
-		return len(v)
-	case *hashmap:
-		return v.len()
-	case map[value]value:
-		return len(v)
-	default:
-		panic(fmt.Sprintf("reflect.(Value).Len(%v)", v))
+func typePkgPath(t types.Type) string {
+	if n, ok := types.Unalias(t).(*types.Named); ok && n.Obj().Pkg() != nil {
+		return n.Obj().Pkg().Path()
 	}
+	return ""
 }
 
-func ext۰reflect۰Value۰MapIndex(fr *frame, args []value) value {
-	// Signature: func (reflect.Value) Value
-	tValue := rV2T(args[0]).t.Underlying().(*types.Map).Key()
-	k := rV2V(args[1])
-	switch m := rV2V(args[0]).(type) {
-	case map[value]value:
-		if v, ok := m[k]; ok {
-			return makeReflectValue(tValue, v)
-		}
+// typeString mimics reflect.Type.String(): package-name qualified.
+func typeString(t types.Type) string {
+	return types.TypeString(t, func(p *types.Package) string { return p.Name() })
+}
 
-	case *hashmap:
-		if v := m.lookup(k.(hashable)); v != nil {
-			return makeReflectValue(tValue, v)
-		}
-
-	default:
-		panic(fmt.Sprintf("(reflect.Value).MapIndex(%T, %T)", m, k))
+func (m *Machine) structFieldValue(st *types.Struct, i int) value {
+	// reflect.StructField{Name, PkgPath string; Type Type; Tag StructTag; Offset uintptr; Index []int; Anonymous bool}
+	f := st.Field(i)
+	pkgPath := ""
+	if !f.Exported() && f.Pkg() != nil {
+		pkgPath = f.Pkg().Path()
 	}
-	return makeReflectValue(nil, nil)
+	return structure{f.Name(), pkgPath, m.mkRType(f.Type()), st.Tag(i), uintptr(0), []value{i}, f.Anonymous()}
 }
 
-func ext۰reflect۰Value۰MapKeys(fr *frame, args []value) value {
-	// Signature: func (reflect.Value) []Value
-	var keys []value
-	tKey := rV2T(args[0]).t.Underlying().(*types.Map).Key()
-	switch v := rV2V(args[0]).(type) {
-	case map[value]value:
-		for k := range v {
-			keys = append(keys, makeReflectValue(tKey, k))
+func (m *Machine) callRtypeMethod(f *rtypeMethod, args []value) value {
+	t := f.recv.t
+	switch f.name {
+	case "Kind":
+		return uint(reflectKind(t))
+	case "String":
+		return typeString(t)
+	case "Name":
+		return typeName(t)
+	case "PkgPath":
+		return typePkgPath(t)
+	case "Elem":
+		switch u := t.Underlying().(type) {
+		case *types.Pointer:
+			return m.mkRType(u.Elem())
+		case *types.Slice:
+			return m.mkRType(u.Elem())
+		case *types.Array:
+			return m.mkRType(u.Elem())
+		case *types.Map:
+			return m.mkRType(u.Elem())
+		case *types.Chan:
+			return m.mkRType(u.Elem())
 		}
+		m.reflectPanic("reflect: Elem of invalid type " + typeString(t))
+	case "Key":
+		if u, ok := t.Underlying().(*types.Map); ok {
+			return m.mkRType(u.Key())
+		}
+		m.reflectPanic("reflect: Key of non-map type " + typeString(t))
+	case "Len":
+		if u, ok := t.Underlying().(*types.Array); ok {
+			return int(u.Len())
+		}
+		m.reflectPanic("reflect: Len of non-array type " + typeString(t))
+	case "NumField":
+		if u, ok := t.Underlying().(*types.Struct); ok {
+			return u.NumFields()
+		}
+		m.reflectPanic("reflect: NumField of non-struct type " + typeString(t))
+	case "Field":
+		if u, ok := t.Underlying().(*types.Struct); ok {
+			i := int(asInt64(args[0]))
+			if i < 0 || i >= u.NumFields() {
+				m.reflectPanic("reflect: Field index out of bounds")
+			}
+			return m.structFieldValue(u, i)
+		}
+		m.reflectPanic("reflect: Field of non-struct type " + typeString(t))
+	case "Comparable":
+		return types.Comparable(t)
+	case "Implements":
+		u := rtypeOf(args[0])
+		it, ok := u.Underlying().(*types.Interface)
+		if !ok {
+			m.reflectPanic("reflect: non-interface type passed to Type.Implements")
+		}
+		return types.Implements(t, it)
+	case "AssignableTo":
+		return types.AssignableTo(t, rtypeOf(args[0]))
+	case "ConvertibleTo":
+		return types.ConvertibleTo(t, rtypeOf(args[0]))
+	case "NumMethod":
+		return m.prog.Prog.MethodSets.MethodSet(t).Len()
+	case "Size":
+		return uintptr(m.prog.sizes().Sizeof(t))
+	case "Bits":
+		return int(m.prog.sizes().Sizeof(t)) * 8
+	}
+	panic(unsupported{"reflect.Type." + f.name})
+}
 
-	case *hashmap:
-		for _, e := range v.entries() {
-			for ; e != nil; e = e.next {
-				keys = append(keys, makeReflectValue(tKey, e.key))
+func (p *Program) sizes() types.Sizes { return types.SizesFor("gc", "amd64") }
+
+func (m *Machine) rv(v value) rvalue {
+	r, ok := v.(rvalue)
+	if !ok {
+		panic(engineFault{fmt.Sprintf("expected reflect.Value, have %T", v)})
+	}
+	return r
+}
+
+func (m *Machine) rvValid(v value, meth string) rvalue {
+	r := m.rv(v)
+	if r.t == nil {
+		m.reflectPanic("reflect: call of reflect.Value." + meth + " on zero Value")
+	}
+	return r
+}
+
+func (m *Machine) rvInterface(r rvalue) value {
+	if _, ok := r.t.Underlying().(*types.Interface); ok {
+		return r.get()
+	}
+	return iface{t: r.t, v: copyVal(r.get())}
+}
+
+func registerReflect(p *Program) {
+	ext := p.externals
+	ext["reflect.TypeOf"] = func(fr *frame, a []value) value { return fr.m.mkRType(a[0].(iface).t) }
+	ext["reflect.ValueOf"] = func(fr *frame, a []value) value {
+		it := a[0].(iface)
+		if it.t == nil {
+			return rvalue{}
+		}
+		return rvalue{t: it.t, v: it.v}
+	}
+	ext["reflect.New"] = func(fr *frame, a []value) value {
+		t := rtypeOf(a[0])
+		cell := zero(t)
+		return rvalue{t: types.NewPointer(t), v: &cell}
+	}
+	ext["reflect.Zero"] = func(fr *frame, a []value) value {
+		t := rtypeOf(a[0])
+		return rvalue{t: t, v: zero(t)}
+	}
+	ext["reflect.Indirect"] = func(fr *frame, a []value) value {
+		r := fr.m.rv(a[0])
+		if r.t == nil {
+			return r
+		}
+		if pt, ok := r.t.Underlying().(*types.Pointer); ok {
+			p := r.get().(*value)
+			if p == nil {
+				return rvalue{}
+			}
+			return rvalue{t: pt.Elem(), addr: p}
+		}
+		return r
+	}
+	ext["reflect.PtrTo"] = func(fr *frame, a []value) value { return fr.m.mkRType(types.NewPointer(rtypeOf(a[0]))) }
+	ext["reflect.PointerTo"] = ext["reflect.PtrTo"]
+	ext["reflect.SliceOf"] = func(fr *frame, a []value) value { return fr.m.mkRType(types.NewSlice(rtypeOf(a[0]))) }
+	ext["reflect.MakeSlice"] = func(fr *frame, a []value) value {
+		m := fr.m
+		t := rtypeOf(a[0])
+		st, ok := t.Underlying().(*types.Slice)
+		if !ok {
+			m.reflectPanic("reflect.MakeSlice of non-slice type")
+		}
+		// negative checks as reflect does
+		n := m.allocSizeReflect(a[1], "reflect.MakeSlice len")
+		c := m.allocSizeReflect(a[2], "reflect.MakeSlice cap")
+		if n > c {
+			m.reflectPanic("reflect.MakeSlice: len > cap")
+		}
+		sl := make([]value, c)
+		for i := range sl {
+			sl[i] = zero(st.Elem())
+		}
+		return rvalue{t: t, v: sl[:n]}
+	}
+	ext["reflect.MakeMap"] = func(fr *frame, a []value) value {
+		t := rtypeOf(a[0])
+		return rvalue{t: t, v: newOmap(t.Underlying().(*types.Map).Key())}
+	}
+	ext["reflect.MakeMapWithSize"] = func(fr *frame, a []value) value {
+		t := rtypeOf(a[0])
+		fr.m.allocSize(a[1], "reflect.MakeMapWithSize")
+		return rvalue{t: t, v: newOmap(t.Underlying().(*types.Map).Key())}
+	}
+	ext["reflect.Append"] = func(fr *frame, a []value) value {
+		r := fr.m.rvValid(a[0], "Append")
+		sl := r.get().([]value)
+		for _, x := range a[1].([]value) {
+			sl = append(sl, copyVal(fr.m.rv(x).get()))
+		}
+		return rvalue{t: r.t, v: sl}
+	}
+	ext["reflect.Copy"] = func(fr *frame, a []value) value {
+		d := fr.m.rvValid(a[0], "Copy")
+		s := fr.m.rvValid(a[1], "Copy")
+		var ds, ss []value
+		switch x := d.get().(type) {
+		case []value:
+			ds = x
+		case array:
+			ds = x
+		}
+		switch x := s.get().(type) {
+		case []value:
+			ss = x
+		case array:
+			ss = x
+		case string, sstr:
+			ss = strBytes(x)
+		}
+		n := len(ds)
+		if len(ss) < n {
+			n = len(ss)
+		}
+		for i := 0; i < n; i++ {
+			ds[i] = copyVal(ss[i])
+		}
+		return n
+	}
+	ext["reflect.DeepEqual"] = func(fr *frame, a []value) value {
+		return fr.m.deepEqual(a[0], a[1], 0)
+	}
+
+	V := func(name string, f func(m *Machine, r rvalue, a []value) value) {
+		ext["(reflect.Value)."+name] = func(fr *frame, a []value) value {
+			return f(fr.m, fr.m.rv(a[0]), a[1:])
+		}
+	}
+	V("IsValid", func(m *Machine, r rvalue, a []value) value { return r.t != nil })
+	V("Kind", func(m *Machine, r rvalue, a []value) value {
+		if r.t == nil {
+			return uint(reflect.Invalid)
+		}
+		return uint(reflectKind(r.t))
+	})
+	V("Type", func(m *Machine, r rvalue, a []value) value {
+		if r.t == nil {
+			m.reflectPanic("reflect: call of reflect.Value.Type on zero Value")
+		}
+		return m.mkRType(r.t)
+	})
+	V("IsNil", func(m *Machine, r rvalue, a []value) value {
+		if r.t == nil {
+			m.reflectPanic("reflect: call of reflect.Value.IsNil on zero Value")
+		}
+		switch x := r.get().(type) {
+		case *value:
+			return x == nil
+		case []value:
+			return x == nil
+		case *omap:
+			return x == nil
+		case *vchan:
+			return x == nil
+		case iface:
+			return x.t == nil
+		case *ssa.Function:
+			return x == nil
+		case *closure:
+			return x == nil
+		}
+		m.reflectPanic("reflect: call of reflect.Value.IsNil on " + reflectKind(r.t).String() + " Value")
+		return nil
+	})
+	V("IsZero", func(m *Machine, r rvalue, a []value) value {
+		if r.t == nil {
+			m.reflectPanic("reflect: call of reflect.Value.IsZero on zero Value")
+		}
+		return m.isZeroValue(r.t, r.get())
+	})
+	V("Elem", func(m *Machine, r rvalue, a []value) value {
+		if r.t == nil {
+			m.reflectPanic("reflect: call of reflect.Value.Elem on zero Value")
+		}
+		switch u := r.t.Underlying().(type) {
+		case *types.Pointer:
+			p := r.get().(*value)
+			if p == nil {
+				return rvalue{}
+			}
+			return rvalue{t: u.Elem(), addr: p, ro: r.ro}
+		case *types.Interface:
+			it := r.get().(iface)
+			if it.t == nil {
+				return rvalue{}
+			}
+			return rvalue{t: it.t, v: it.v, ro: r.ro}
+		}
+		m.reflectPanic("reflect: call of reflect.Value.Elem on " + reflectKind(r.t).String() + " Value")
+		return nil
+	})
+	V("Len", func(m *Machine, r rvalue, a []value) value {
+		if r.t == nil {
+			m.reflectPanic("reflect: call of reflect.Value.Len on zero Value")
+		}
+		switch x := r.get().(type) {
+		case []value:
+			return len(x)
+		case array:
+			return len(x)
+		case string, sstr:
+			return strLen(x)
+		case *omap:
+			return x.len()
+		case *vchan:
+			if x == nil {
+				return 0
+			}
+			return len(x.buf)
+		case *value: // pointer to array
+			if pt, ok := r.t.Underlying().(*types.Pointer); ok {
+				if at, ok := pt.Elem().Underlying().(*types.Array); ok {
+					return int(at.Len())
+				}
 			}
 		}
-
-	default:
-		panic(fmt.Sprintf("(reflect.Value).MapKeys(%T)", v))
-	}
-	return keys
-}
-
-func ext۰reflect۰Value۰NumField(fr *frame, args []value) value {
-	// Signature: func (reflect.Value) int
-	return len(rV2V(args[0]).(structure))
-}
-
-func ext۰reflect۰Value۰NumMethod(fr *frame, args []value) value {
-	// Signature: func (reflect.Value) int
-	return fr.i.prog.MethodSets.MethodSet(rV2T(args[0]).t).Len()
-}
-
-func ext۰reflect۰Value۰Pointer(fr *frame, args []value) value {
-	// Signature: func (v reflect.Value) uintptr
-	switch v := rV2V(args[0]).(type) {
-	case *value:
-		return uintptr(unsafe.Pointer(v))
-	case chan value:
-		return reflect.ValueOf(v).Pointer()
-	case []value:
-		return reflect.ValueOf(v).Pointer()
-	case *hashmap:
-		return reflect.ValueOf(v.entries()).Pointer()
-	case map[value]value:
-		return reflect.ValueOf(v).Pointer()
-	case *ssa.Function:
-		return uintptr(unsafe.Pointer(v))
-	case *closure:
-		return uintptr(unsafe.Pointer(v))
-	default:
-		panic(fmt.Sprintf("reflect.(Value).Pointer(%T)", v))
-	}
-}
-
-func ext۰reflect۰Value۰Index(fr *frame, args []value) value {
-	// Signature: func (v reflect.Value, i int) Value
-	i := args[1].(int)
-	t := rV2T(args[0]).t.Underlying()
-	switch v := rV2V(args[0]).(type) {
-	case array:
-		return makeReflectValue(t.(*types.Array).Elem(), v[i])
-	case []value:
-		return makeReflectValue(t.(*types.Slice).Elem(), v[i])
-	default:
-		panic(fmt.Sprintf("reflect.(Value).Index(%T)", v))
-	}
-}
-
-func ext۰reflect۰Value۰Bool(fr *frame, args []value) value {
-	// Signature: func (reflect.Value) bool
-	return rV2V(args[0]).(bool)
-}
-
-func ext۰reflect۰Value۰CanAddr(fr *frame, args []value) value {
-	// Signature: func (v reflect.Value) bool
-	// Always false for our representation.
-	return false
-}
-
-func ext۰reflect۰Value۰CanInterface(fr *frame, args []value) value {
-	// Signature: func (v reflect.Value) bool
-	// Always true for our representation.
-	return true
-}
-
-func ext۰reflect۰Value۰Elem(fr *frame, args []value) value {
-	// Signature: func (v reflect.Value) reflect.Value
-	switch x := rV2V(args[0]).(type) {
-	case iface:
-		return makeReflectValue(x.t, x.v)
-	case *value:
-		var v value
-		if x != nil {
-			v = *x
+		m.reflectPanic("reflect: call of reflect.Value.Len on " + reflectKind(r.t).String() + " Value")
+		return nil
+	})
+	V("Cap", func(m *Machine, r rvalue, a []value) value {
+		switch x := r.get().(type) {
+		case []value:
+			return cap(x)
+		case array:
+			return len(x)
 		}
-		return makeReflectValue(rV2T(args[0]).t.Underlying().(*types.Pointer).Elem(), v)
-	default:
-		panic(fmt.Sprintf("reflect.(Value).Elem(%T)", x))
+		m.reflectPanic("reflect: call of reflect.Value.Cap on non-slice Value")
+		return nil
+	})
+	V("Index", func(m *Machine, r rvalue, a []value) value {
+		if r.t == nil {
+			m.reflectPanic("reflect: call of reflect.Value.Index on zero Value")
+		}
+		switch u := r.t.Underlying().(type) {
+		case *types.Slice:
+			s := r.get().([]value)
+			i := asInt64(m.concretize(a[0], "reflect-index"))
+			if i < 0 || i >= int64(len(s)) {
+				m.reflectPanic("reflect: slice index out of range")
+			}
+			return rvalue{t: u.Elem(), addr: &s[i], ro: r.ro}
+		case *types.Array:
+			i := asInt64(m.concretize(a[0], "reflect-index"))
+			if i < 0 || i >= u.Len() {
+				m.reflectPanic("reflect: array index out of range")
+			}
+			if r.addr != nil {
+				arr := (*r.addr).(array)
+				return rvalue{t: u.Elem(), addr: &arr[i], ro: r.ro}
+			}
+			return rvalue{t: u.Elem(), v: copyVal(r.v.(array)[i]), ro: r.ro}
+		case *types.Basic:
+			if u.Kind() == types.String {
+				b := strBytes(r.get())
+				i := asInt64(m.concretize(a[0], "reflect-index"))
+				if i < 0 || i >= int64(len(b)) {
+					m.reflectPanic("reflect: string index out of range")
+				}
+				return rvalue{t: types.Typ[types.Uint8], v: b[i]}
+			}
+		}
+		m.reflectPanic("reflect: call of reflect.Value.Index on " + reflectKind(r.t).String() + " Value")
+		return nil
+	})
+	V("NumField", func(m *Machine, r rvalue, a []value) value {
+		if r.t != nil {
+			if st, ok := r.t.Underlying().(*types.Struct); ok {
+				return st.NumFields()
+			}
+		}
+		m.reflectPanic("reflect: call of reflect.Value.NumField on non-struct Value")
+		return nil
+	})
+	V("Field", func(m *Machine, r rvalue, a []value) value {
+		if r.t == nil {
+			m.reflectPanic("reflect: call of reflect.Value.Field on zero Value")
+		}
+		st, ok := r.t.Underlying().(*types.Struct)
+		if !ok {
+			m.reflectPanic("reflect: call of reflect.Value.Field on " + reflectKind(r.t).String() + " Value")
+		}
+		i := int(asInt64(a[0]))
+		if i < 0 || i >= st.NumFields() {
+			m.reflectPanic("reflect: Field index out of range")
+		}
+		ro := r.ro || !st.Field(i).Exported()
+		if r.addr != nil {
+			s := (*r.addr).(structure)
+			return rvalue{t: st.Field(i).Type(), addr: &s[i], ro: ro}
+		}
+		return rvalue{t: st.Field(i).Type(), v: copyVal(r.v.(structure)[i]), ro: ro}
+	})
+	V("CanSet", func(m *Machine, r rvalue, a []value) value { return r.addr != nil && !r.ro })
+	V("CanAddr", func(m *Machine, r rvalue, a []value) value { return r.addr != nil })
+	V("CanInterface", func(m *Machine, r rvalue, a []value) value {
+		if r.t == nil {
+			m.reflectPanic("reflect.Value.CanInterface: call on zero Value")
+		}
+		return !r.ro
+	})
+	V("Interface", func(m *Machine, r rvalue, a []value) value {
+		if r.t == nil {
+			m.reflectPanic("reflect: call of reflect.Value.Interface on zero Value")
+		}
+		if r.ro {
+			m.reflectPanic("reflect.Value.Interface: cannot return value obtained from unexported field or method")
+		}
+		return m.rvInterface(r)
+	})
+	V("Addr", func(m *Machine, r rvalue, a []value) value {
+		if r.addr == nil {
+			m.reflectPanic("reflect.Value.Addr of unaddressable value")
+		}
+		return rvalue{t: types.NewPointer(r.t), v: r.addr, ro: r.ro}
+	})
+	V("Set", func(m *Machine, r rvalue, a []value) value {
+		x := m.rv(a[0])
+		if r.addr == nil || r.ro {
+			m.reflectPanic("reflect: reflect.Value.Set using unaddressable value")
+		}
+		if x.t == nil {
+			m.reflectPanic("reflect: call of reflect.Value.Set on zero Value")
+		}
+		if x.ro {
+			m.reflectPanic("reflect: reflect.Value.Set using value obtained using unexported field")
+		}
+		nv := copyVal(x.get())
+		if _, isIface := r.t.Underlying().(*types.Interface); isIface {
+			if _, srcIface := x.t.Underlying().(*types.Interface); !srcIface {
+				if !types.AssignableTo(x.t, r.t) {
+					m.reflectPanic("reflect.Set: value of type " + typeString(x.t) + " is not assignable to type " + typeString(r.t))
+				}
+				nv = iface{t: x.t, v: nv}
+			}
+		} else if !types.AssignableTo(x.t, r.t) {
+			m.reflectPanic("reflect.Set: value of type " + typeString(x.t) + " is not assignable to type " + typeString(r.t))
+		}
+		store(nil, r.addr, nv)
+		return nil
+	})
+	setScalar := func(name string, ok func(k reflect.Kind) bool, cv func(m *Machine, t types.Type, x value) value) {
+		V(name, func(m *Machine, r rvalue, a []value) value {
+			if r.addr == nil || r.ro {
+				m.reflectPanic("reflect: reflect.Value." + name + " using unaddressable value")
+			}
+			if !ok(reflectKind(r.t)) {
+				m.reflectPanic("reflect: call of reflect.Value." + name + " on " + reflectKind(r.t).String() + " Value")
+			}
+			*r.addr = cv(m, r.t, a[0])
+			return nil
+		})
 	}
+	isInt := func(k reflect.Kind) bool { return k >= reflect.Int && k <= reflect.Int64 }
+	isUint := func(k reflect.Kind) bool { return k >= reflect.Uint && k <= reflect.Uintptr }
+	setScalar("SetInt", isInt, func(m *Machine, t types.Type, x value) value { return m.conv(t, types.Typ[types.Int64], x) })
+	setScalar("SetUint", isUint, func(m *Machine, t types.Type, x value) value { return m.conv(t, types.Typ[types.Uint64], x) })
+	setScalar("SetBool", func(k reflect.Kind) bool { return k == reflect.Bool }, func(m *Machine, t types.Type, x value) value { return x })
+	setScalar("SetString", func(k reflect.Kind) bool { return k == reflect.String }, func(m *Machine, t types.Type, x value) value { return x })
+	setScalar("SetFloat", func(k reflect.Kind) bool { return k == reflect.Float32 || k == reflect.Float64 }, func(m *Machine, t types.Type, x value) value {
+		return m.conv(t, types.Typ[types.Float64], x)
+	})
+	setScalar("SetBytes", func(k reflect.Kind) bool { return k == reflect.Slice }, func(m *Machine, t types.Type, x value) value { return x })
+	V("Int", func(m *Machine, r rvalue, a []value) value {
+		if r.t == nil || !isInt(reflectKind(r.t)) {
+			m.reflectPanic("reflect: call of reflect.Value.Int on non-int Value")
+		}
+		return m.conv(types.Typ[types.Int64], r.t, r.get())
+	})
+	V("Uint", func(m *Machine, r rvalue, a []value) value {
+		if r.t == nil || !isUint(reflectKind(r.t)) {
+			m.reflectPanic("reflect: call of reflect.Value.Uint on non-uint Value")
+		}
+		return m.conv(types.Typ[types.Uint64], r.t, r.get())
+	})
+	V("Bool", func(m *Machine, r rvalue, a []value) value {
+		if r.t == nil || reflectKind(r.t) != reflect.Bool {
+			m.reflectPanic("reflect: call of reflect.Value.Bool on non-bool Value")
+		}
+		return r.get()
+	})
+	V("Float", func(m *Machine, r rvalue, a []value) value {
+		switch x := r.get().(type) {
+		case float32:
+			return float64(x)
+		case float64:
+			return x
+		}
+		m.reflectPanic("reflect: call of reflect.Value.Float on non-float Value")
+		return nil
+	})
+	V("String", func(m *Machine, r rvalue, a []value) value {
+		if r.t == nil {
+			return "<invalid Value>"
+		}
+		if reflectKind(r.t) == reflect.String {
+			return r.get()
+		}
+		return "<" + typeString(r.t) + " Value>"
+	})
+	V("Bytes", func(m *Machine, r rvalue, a []value) value {
+		if s, ok := r.get().([]value); ok {
+			return s
+		}
+		m.reflectPanic("reflect: call of reflect.Value.Bytes on non-byte-slice Value")
+		return nil
+	})
+	V("Pointer", func(m *Machine, r rvalue, a []value) value {
+		return m.pointerID(r.get())
+	})
+	V("UnsafePointer", func(m *Machine, r rvalue, a []value) value {
+		panic(unsupported{"reflect.Value.UnsafePointer"})
+	})
+	V("MapKeys", func(m *Machine, r rvalue, a []value) value {
+		o, ok := r.get().(*omap)
+		if !ok {
+			m.reflectPanic("reflect: call of reflect.Value.MapKeys on non-map Value")
+		}
+		kt := r.t.Underlying().(*types.Map).Key()
+		var out []value
+		if o != nil {
+			for i := range o.keys {
+				if o.alive[i] {
+					out = append(out, rvalue{t: kt, v: o.keys[i]})
+				}
+			}
+		}
+		return out
+	})
+	V("MapIndex", func(m *Machine, r rvalue, a []value) value {
+		o, ok := r.get().(*omap)
+		if !ok {
+			m.reflectPanic("reflect: call of reflect.Value.MapIndex on non-map Value")
+		}
+		v, found := m.omapGet(o, m.rv(a[0]).get())
+		if !found {
+			return rvalue{}
+		}
+		return rvalue{t: r.t.Underlying().(*types.Map).Elem(), v: copyVal(v)}
+	})
+	V("SetMapIndex", func(m *Machine, r rvalue, a []value) value {
+		o, ok := r.get().(*omap)
+		if !ok {
+			m.reflectPanic("reflect: call of reflect.Value.SetMapIndex on non-map Value")
+		}
+		k := m.rv(a[0]).get()
+		e := m.rv(a[1])
+		if e.t == nil {
+			m.omapDelete(o, k)
+			return nil
+		}
+		ev := copyVal(e.get())
+		if _, isIface := r.t.Underlying().(*types.Map).Elem().Underlying().(*types.Interface); isIface {
+			if _, srcIface := e.t.Underlying().(*types.Interface); !srcIface {
+				ev = iface{t: e.t, v: ev}
+			}
+		}
+		m.omapSet(o, k, ev)
+		return nil
+	})
+	V("SetLen", func(m *Machine, r rvalue, a []value) value {
+		s := (*r.addr).([]value)
+		n := asInt64(m.concretize(a[0], "reflect-setlen"))
+		if n < 0 || n > int64(cap(s)) {
+			m.reflectPanic("reflect: slice length out of range in SetLen")
+		}
+		*r.addr = s[:n]
+		return nil
+	})
+	V("Slice", func(m *Machine, r rvalue, a []value) value {
+		return rvalue{t: sliceTypeOf(r.t), v: m.slice(sliceable(r), a[0], a[1], nil)}
+	})
+	V("Convert", func(m *Machine, r rvalue, a []value) value {
+		t := rtypeOf(a[0])
+		if types.Identical(r.t, t) {
+			return rvalue{t: t, v: r.get()}
+		}
+		if _, ok := t.Underlying().(*types.Interface); ok {
+			return rvalue{t: t, v: m.rvInterface(r)}
+		}
+		return rvalue{t: t, v: m.conv(t, r.t, r.get())}
+	})
+	V("NumMethod", func(m *Machine, r rvalue, a []value) value {
+		return m.prog.Prog.MethodSets.MethodSet(r.t).Len()
+	})
 }
 
-func ext۰reflect۰Value۰Field(fr *frame, args []value) value {
-	// Signature: func (v reflect.Value, i int) reflect.Value
-	v := args[0]
-	i := args[1].(int)
-	return makeReflectValue(rV2T(v).t.Underlying().(*types.Struct).Field(i).Type(), rV2V(v).(structure)[i])
-}
-
-func ext۰reflect۰Value۰Float(fr *frame, args []value) value {
-	// Signature: func (reflect.Value) float64
-	switch v := rV2V(args[0]).(type) {
-	case float32:
-		return float64(v)
-	case float64:
-		return float64(v)
+func sliceTypeOf(t types.Type) types.Type {
+	switch u := t.Underlying().(type) {
+	case *types.Array:
+		return types.NewSlice(u.Elem())
+	case *types.Pointer:
+		return types.NewSlice(u.Elem().Underlying().(*types.Array).Elem())
 	}
-	panic("reflect.Value.Float")
+	return t
 }
 
-func ext۰reflect۰Value۰Interface(fr *frame, args []value) value {
-	// Signature: func (v reflect.Value) interface{}
-	return ext۰reflect۰valueInterface(args)
-}
-
-func ext۰reflect۰Value۰Int(fr *frame, args []value) value {
-	// Signature: func (reflect.Value) int64
-	switch x := rV2V(args[0]).(type) {
-	case int:
-		return int64(x)
-	case int8:
-		return int64(x)
-	case int16:
-		return int64(x)
-	case int32:
-		return int64(x)
-	case int64:
-		return x
-	default:
-		panic(fmt.Sprintf("reflect.(Value).Int(%T)", x))
+func sliceable(r rvalue) value {
+	if r.addr != nil {
+		if _, ok := (*r.addr).(array); ok {
+			return r.addr
+		}
 	}
+	return r.get()
 }
 
-func ext۰reflect۰Value۰IsNil(fr *frame, args []value) value {
-	// Signature: func (reflect.Value) bool
-	switch x := rV2V(args[0]).(type) {
+// allocSizeReflect is allocSize with reflect's panic messages for negatives.
+func (m *Machine) allocSizeReflect(v value, what string) int {
+	return m.allocSize(v, what)
+}
+
+func (m *Machine) pointerID(v value) value {
+	switch x := v.(type) {
+	case *value:
+		if x == nil {
+			return uintptr(0)
+		}
+		return uintptr(m.ptrSeq(x))
+	case *omap:
+		if x == nil {
+			return uintptr(0)
+		}
+		return uintptr(m.ptrSeq(x))
+	case []value:
+		if x == nil {
+			return uintptr(0)
+		}
+		if cap(x) == 0 {
+			return uintptr(1)
+		}
+		return uintptr(m.ptrSeq(&x[:1][0]))
+	}
+	return uintptr(m.ptrSeq(v))
+}
+
+func (m *Machine) ptrSeq(k any) int {
+	if m.ptrIDs == nil {
+		m.ptrIDs = map[any]int{}
+	}
+	if id, ok := m.ptrIDs[k]; ok {
+		return id
+	}
+	id := 0x1000 + 16*len(m.ptrIDs)
+	m.ptrIDs[k] = id
+	return id
+}
+
+func (m *Machine) isZeroValue(t types.Type, v value) value {
+	switch x := v.(type) {
+	case structure:
+		st := t.Underlying().(*types.Struct)
+		acc := value(true)
+		for i := range x {
+			acc = m.andV(acc, m.isZeroValue(st.Field(i).Type(), x[i]))
+		}
+		return acc
+	case array:
+		at := t.Underlying().(*types.Array)
+		acc := value(true)
+		for i := range x {
+			acc = m.andV(acc, m.isZeroValue(at.Elem(), x[i]))
+		}
+		return acc
+	case []value:
+		return x == nil
+	case *omap:
+		return x == nil
 	case *value:
 		return x == nil
-	case chan value:
-		return x == nil
-	case map[value]value:
-		return x == nil
-	case *hashmap:
+	case *vchan:
 		return x == nil
 	case iface:
 		return x.t == nil
-	case []value:
-		return x == nil
 	case *ssa.Function:
-		return x == nil
-	case *ssa.Builtin:
 		return x == nil
 	case *closure:
 		return x == nil
-	default:
-		panic(fmt.Sprintf("reflect.(Value).IsNil(%T)", x))
-	}
-}
-
-func ext۰reflect۰Value۰IsValid(fr *frame, args []value) value {
-	// Signature: func (reflect.Value) bool
-	return rV2V(args[0]) != nil
-}
-
-func ext۰reflect۰Value۰Set(fr *frame, args []value) value {
-	// TODO(adonovan): implement.
-	return nil
-}
-
-func ext۰reflect۰valueInterface(args []value) value {
-	// Signature: func (v reflect.Value, safe bool) interface{}
-	v := args[0].(structure)
-	return iface{rV2T(v).t, rV2V(v)}
-}
-
-func ext۰reflect۰error۰Error(fr *frame, args []value) value {
-	return args[0]
-}
-
-// newMethod creates a new method of the specified name, package and receiver type.
-func newMethod(pkg *ssa.Package, recvType types.Type, name string) *ssa.Function {
-	// TODO(adonovan): fix: hack: currently the only part of Signature
-	// that is needed is the "pointerness" of Recv.Type, and for
-	// now, we'll set it to always be false since we're only
-	// concerned with rtype.  Encapsulate this better.
-	sig := types.NewSignatureType(types.NewParam(token.NoPos, nil, "recv", recvType), nil, nil, nil, nil, false)
-	fn := pkg.Prog.NewFunction(name, sig, "fake reflect method")
-	fn.Pkg = pkg
-	return fn
-}
-
-func initReflect(i *interpreter) {
-	i.reflectPackage = &ssa.Package{
-		Prog:    i.prog,
-		Pkg:     reflectTypesPackage,
-		Members: make(map[string]ssa.Member),
-	}
-
-	// Clobber the type-checker's notion of reflect.Value's
-	// underlying type so that it more closely matches the fake one
-	// (at least in the number of fields---we lie about the type of
-	// the rtype field).
-	//
-	// We must ensure that calls to (ssa.Value).Type() return the
-	// fake type so that correct "shape" is used when allocating
-	// variables, making zero values, loading, and storing.
-	//
-	// TODO(adonovan): obviously this is a hack.  We need a cleaner
-	// way to fake the reflect package (almost---DeepEqual is fine).
-	// One approach would be not to even load its source code, but
-	// provide fake source files.  This would guarantee that no bad
-	// information leaks into other packages.
-	if r := i.prog.ImportedPackage("reflect"); r != nil {
-		rV := r.Pkg.Scope().Lookup("Value").Type().(*types.Named)
-
-		// delete bodies of the old methods
-		mset := i.prog.MethodSets.MethodSet(rV)
-		for method := range mset.Methods() {
-			i.prog.MethodValue(method).Blocks = nil
+	case string:
+		return x == ""
+	case sstr:
+		return len(x.b) == 0
+	case symv:
+		if x.k == types.Bool {
+			return m.notV(x)
 		}
-
-		tEface := types.NewInterface(nil, nil).Complete()
-		rV.SetUnderlying(types.NewStruct([]*types.Var{
-			types.NewField(token.NoPos, r.Pkg, "t", tEface, false), // a lie
-			types.NewField(token.NoPos, r.Pkg, "v", tEface, false),
-		}, nil))
+		return mkScalar(m.ctx.Eq(x.t, m.ctx.BV(0, x.t.W)), types.Bool)
+	case float32:
+		return x == 0
+	case float64:
+		return x == 0
+	case bool:
+		return !x
+	case rvalue:
+		return x.t == nil
 	}
-
-	i.rtypeMethods = methodSet{
-		"Bits":      newMethod(i.reflectPackage, rtypeType, "Bits"),
-		"Elem":      newMethod(i.reflectPackage, rtypeType, "Elem"),
-		"Field":     newMethod(i.reflectPackage, rtypeType, "Field"),
-		"In":        newMethod(i.reflectPackage, rtypeType, "In"),
-		"Kind":      newMethod(i.reflectPackage, rtypeType, "Kind"),
-		"NumField":  newMethod(i.reflectPackage, rtypeType, "NumField"),
-		"NumIn":     newMethod(i.reflectPackage, rtypeType, "NumIn"),
-		"NumMethod": newMethod(i.reflectPackage, rtypeType, "NumMethod"),
-		"NumOut":    newMethod(i.reflectPackage, rtypeType, "NumOut"),
-		"Out":       newMethod(i.reflectPackage, rtypeType, "Out"),
-		"Size":      newMethod(i.reflectPackage, rtypeType, "Size"),
-		"String":    newMethod(i.reflectPackage, rtypeType, "String"),
+	if k, ok := kindOf(v); ok && k != types.Bool {
+		return bitsOf(v) == 0
 	}
-	i.errorMethods = methodSet{
-		"Error": newMethod(i.reflectPackage, errorType, "Error"),
-	}
+	return false
 }
+
+// deepEqual implements reflect.DeepEqual over engine values (concrete result;
+// symbolic leaves are compared through decide).
+func (m *Machine) deepEqual(a, b value, depth int) bool {
+	if depth > 50 {
+		panic(unsupported{"deepEqual recursion"})
+	}
+	switch x := a.(type) {
+	case iface:
+		y, ok := b.(iface)
+		if !ok {
+			return false
+		}
+		if !sameType(x.t, y.t) {
+			return false
+		}
+		if x.t == nil {
+			return true
+		}
+		return m.deepEqual(x.v, y.v, depth+1)
+	case structure:
+		y := b.(structure)
+		for i := range x {
+			if !m.deepEqual(x[i], y[i], depth+1) {
+				return false
+			}
+		}
+		return true
+	case array:
+		y := b.(array)
+		for i := range x {
+			if !m.deepEqual(x[i], y[i], depth+1) {
+				return false
+			}
+		}
+		return true
+	case []value:
+		y := b.([]value)
+		if (x == nil) != (y == nil) || len(x) != len(y) {
+			return false
+		}
+		for i := range x {
+			if !m.deepEqual(x[i], y[i], depth+1) {
+				return false
+			}
+		}
+		return true
+	case *value:
+		y := b.(*value)
+		if x == nil || y == nil {
+			return x == y
+		}
+		if x == y {
+			return true
+		}
+		return m.deepEqual(*x, *y, depth+1)
+	case *omap:
+		y := b.(*omap)
+		if (x == nil) != (y == nil) || x.len() != y.len() {
+			return false
+		}
+		if x == nil {
+			return true
+		}
+		for i := range x.keys {
+			if !x.alive[i] {
+				continue
+			}
+			v, ok := m.omapGet(y, x.keys[i])
+			if !ok || !m.deepEqual(x.vals[i], v, depth+1) {
+				return false
+			}
+		}
+		return true
+	case *ssa.Function:
+		y, ok := b.(*ssa.Function)
+		return ok && x == nil && y == nil
+	case *closure:
+		return false
+	}
+	return m.decide(m.equalsV(nil, a, b), "deepequal")
+}
+
+var _ = strings.Builder{}
